@@ -114,6 +114,8 @@ def parse_operand(s):
     if s.startswith('copy '): return ('copy', parse_place(s[5:]))
     if s.startswith('move '): return ('move', parse_place(s[5:]))
     if s.startswith('const '): return ('const', s[6:].strip())
+    if re.match(r'^[\w:<>&\[\], \'{}#@./()-]+$', s) and not s.startswith('_'):
+        return ('const', 'ZeroSized: ' + s)        # a function item used as a value (e.g. `.map(String::from)`)
     raise ValueError('operand? ' + s)
 
 
@@ -289,11 +291,14 @@ def parse_stmt(line):
 class Bodies(dict):
     """name -> Body, plus `allocs`: allocN -> name of the static it is the memory of"""
     allocs = None
+    inline_consts = None
 
 
 def parse_mir(text):
     bodies = Bodies()
     bodies.allocs = {m.group(1): m.group(2) for m in re.finditer(r'^(alloc\d+) \(static: ([\w:]+)', text, re.M)}
+    # `const NAME: T = const VALUE;` (constants whose initialiser is a plain literal are printed on one line)
+    bodies.inline_consts = {m.group(1): m.group(2) for m in re.finditer(r'^const ([\w:{}#]+): [^=]+ = const (.+);$', text, re.M)}
     lines = text.split('\n')
     i = 0
     while i < len(lines):
